@@ -4,6 +4,8 @@ import json
 import os
 import random
 import re
+import sys
+from fractions import Fraction
 
 import fw
 import progen
@@ -31,6 +33,8 @@ ASSUMPTIONS = [
     'CPython re engine: the line classifier and token scanners of the model re-implement each anchored pattern by hand '
     '(Gen/Regex pins the pattern sources; correspondence streams tie the behaviour)',
     'chunks passed to parse_script are lines or groups of lines WITHOUT their trailing newline',
+    'non-ASCII letters/digits outside string literals and exponents above 200000 are outside the Lean model (ASCII \\w/\\d, exact '
+    'rational literals): such texts are judged by the oracles on the implementation only',
 ]
 LEVEL_TEXT = ('Theorems about the Lean model of parse_script (line splitter + continuation joiner, line classifier, token scanners, '
               'stack-based lowering): every error carries line number = start + index of the first physical line of the logical line, '
@@ -42,7 +46,10 @@ LEVEL_TEXT = ('Theorems about the Lean model of parse_script (line splitter + co
               'The model is tied to parser.py by differential correspondence on token soup, mutated programs and long lines, and '
               'metamorphic oracles (prepend shifts line number, marker lines survive) run on the implementation.')
 LEVEL_NOTE = ('Trusted: Lean kernel; extract.py; correspondence harness. Modelled not verified: CPython re. Python recursion limit '
-              '(nesting > ~300 in one expression raises RecursionError) is outside the model; generators keep nesting <= 50.')
+              '(nesting > ~300 in one expression raises RecursionError) is outside the model; generators keep nesting <= 50. '
+              'Token SIZES are not bounded: the scale families run every token class (digits of a literal, identifiers, strings, blanks, '
+              'comments, argument lists, line counts) up to 20000 (thorough: 100001) characters, across the host limits 2**53 / 17 digits, '
+              '1e308 / 1e-324 and the 4300-digit int<->str limit, with the implementation under the DEFAULT digit limit.')
 
 TOKENS = ['if', 'elif', 'else', 'endif', 'while', 'endwhile', 'for', 'endfor', 'in', 'function', 'endfunction', 'async', 'return',
           'break', 'continue', 'jump', 'jumpif', 'include', ':', '(', ')', ',', '...', '=', '==', '+', '-', '*', '**', '/', '%', '<', '<=',
@@ -237,6 +244,225 @@ def caret_ok(ctx, err, inp):
     return True
 
 
+# ---------------------------------------------------------------------------------------------------------------------
+# scale families: every token class of the language at sizes far beyond what a person types, around the limits of the
+# host (CPython's int<->str digit limit 4300, double precision 2**53 / 17 digits, double range 1e308 / 1e-324, the
+# 120-column elision of the message), in every statement kind; and number literals of every lexical form
+# ---------------------------------------------------------------------------------------------------------------------
+
+HOST_LIMITS = [15, 16, 17, 18, 120, 121, 308, 309, 310, 324, 1000, 4299, 4300, 4301]
+
+# statement kinds that carry an expression: (name, template, the slot is a whole expression)
+EXPR_SLOTS = [
+    ('assign', 'v = {e}'),
+    ('expr-stmt', '{e}'),
+    ('call-stmt', 'fn(a, {e})'),
+    ('if', 'if {e}:\n    y = 1\nendif'),
+    ('elif', 'if a:\n    y = 1\nelif {e}:\n    y = 2\nelse:\n    y = 3\nendif'),
+    ('while', 'while {e}:\n    x = x * 2\nendwhile'),
+    ('for', 'for v, i in {e}:\n    y = v\nendfor'),
+    ('jumpif', 'top:\njumpif ({e}) top'),
+    ('return', 'function f(a):\n    return {e}\nendfunction'),
+    ('operand', 'v = 1 + {e} * 2'),
+    ('unary', 'v = -{e}'),
+    ('group', 'v = (!({e}))'),
+    ('continued', 'v = fn(a, \\\n    {e}, \\\n  b)'),
+]
+
+
+def digits(rng, n, first='123456789'):
+    return rng.choice(first) + ''.join(rng.choice('0123456789') for _ in range(n - 1)) if n > 0 else ''
+
+
+def atoms(rng, n):
+    """(class, expression text) - one expression atom of every token class whose size parameter is n."""
+    d = digits(rng, n)
+    small = str(rng.randint(0, 400))
+    yield 'int-nines', '9' * n
+    yield 'int-power10', '1' + '0' * n
+    yield 'int-random', d
+    yield 'int-plus', '+' + d
+    yield 'int-leading-zeros', '0' * n + rng.choice(['', '7', '.5'])
+    yield 'frac-long', rng.choice(['0', '1', '123']) + '.' + digits(rng, n, '0123456789')
+    yield 'frac-long-int', d + '.' + rng.choice(['', '0', '5', d[:50]])
+    yield 'exp-long-mantissa', d + rng.choice(['e+', 'e-']) + small
+    yield 'exp-scaled-back', d + 'e-' + str(n)                               # about 1
+    yield 'exp-scaled-up', '0.' + '0' * n + '1e+' + str(n)                   # about 0.1
+    yield 'exp-value', rng.choice(['1', '9.9', '0.1']) + rng.choice(['e+', 'e-']) + str(n)       # 1e+308, 1e+309, 1e-324, ...
+    yield 'exp-long', '1' + rng.choice(['e+', 'e-']) + rng.choice(['', '0' * n]) + digits(rng, n)    # astronomically large / small
+    yield 'identifier', rng.choice(['a', 'x_', 'Z9']) * n
+    yield 'call-name', 'f' * n + '(a)'
+    yield 'string', "'" + 's' * n + "'"
+    yield 'string-double', '"' + 't' * n + '"'
+    yield 'string-escapes', "'" + rng.choice(["\\'", '\\\\', "x\\'"]) * min(n, 5000) + "'"
+    yield 'string-double-escapes', '"' + rng.choice(['\\"', '\\\\', 'x\\"']) * min(n, 5000) + '"'
+    yield 'string-digits', "'" + d + "'"
+    yield 'bracket-variable', '[' + rng.choice(['a b', '\\]', 'x.y ']) * n + ']'
+    yield 'arguments', 'fn(' + ', '.join([rng.choice(['1', 'a', "''"])] * min(n, 1500)) + ')'
+    yield 'blanks-inside', 'fn(a,' + rng.choice(' \t') * n + 'b' + rng.choice(' \t') * n + ')'
+    yield 'chain', rng.choice([' + ', ' ** ', ' && ', ' - ']).join(['a'] * min(n, 50))
+
+
+def structure_cases(rng, n):
+    """(class, text) - the token classes that live outside expressions, size n."""
+    m = min(n, 3000)          # line COUNTS stay below this (the model's line loop is quadratic)
+    nm = 'n' * n
+    yield 'comment-long', '#' + rng.choice(['c', ' ', '#', '\\']) * n + '\nv = 1'
+    yield 'comment-long', 'v = 1\n  # ' + 'c' * n
+    yield 'blank-line-long', rng.choice(' \t') * n + '\nv = 1'
+    yield 'indent-long', ' ' * n + 'v = 1'
+    yield 'trailing-blanks-long', 'v = 1' + rng.choice(' \t') * n
+    yield 'assign-blanks', 'v' + ' ' * n + '=' + '\t' * n + '1'
+    yield 'assign-target', nm + ' = 1'
+    yield 'label', nm + ':\njump ' + nm
+    yield 'jumpif-target', nm + ':\njumpif (a) ' + nm
+    yield 'for-variables', 'for ' + nm + ', i' + nm + ' in a:\nendfor'
+    yield 'function-name', rng.choice(['', 'async ']) + 'function ' + nm + '(a, b...):\nendfunction'
+    yield 'function-arg', 'function f(' + nm + ', b):\nendfunction'
+    yield 'function-args', 'function f(' + ', '.join('a%d' % i for i in range(min(n, 5000))) + '):\nendfunction'
+    yield 'include-url', 'include ' + rng.choice(["'{}.bare'", '<{}>', '"{}"']).format('u' * n)
+    yield 'include-run', '\n'.join(['include <u%d>' % i for i in range(m)])
+    yield 'statement-run', '\n'.join(['v%d = %d' % (i, i) for i in range(m)])
+    yield 'comment-run', '\n'.join(['# c'] * m + ['v = 1'])
+    yield 'blank-run', '\n' * m + 'v = 1' + '\r\n' * m
+    yield 'block-run', '\n'.join(['if a:', 'v = 1', 'endif'] * (m // 3 + 1))
+    yield 'function-run', '\n'.join(['function f%d():' % i + '\nendfunction' for i in range(m // 2 + 1)])
+    yield 'continuation-run', 'v = fn(0, \\\n' + ''.join('  %d, \\\n' % i for i in range(m)) + '  1)'
+    yield 'continuation-blanks', 'v = 1 + \\' + ' ' * n + '\n' + '\t' * n + '2'
+    yield 'colon-blanks', 'if a' + ' ' * min(n, 20000) + ':' + ' ' * min(n, 20000) + '\nendif'       # the implementation is quadratic here
+
+
+BAD_LINE = ['z = (1 +', 'endif', 'z = 1 )', 'function g(:', 'jumpif a b']
+
+
+def with_fault(rng, text, how):
+    """The three ways a fault meets a big token: none / on a LATER line (the diagnostic must still be produced, with that
+    line's number) / on an EARLIER line (first error wins)."""
+    if how == 'valid':
+        return text
+    bad = rng.choice(BAD_LINE)
+    if how == 'fault-after':
+        return text + '\n' + bad
+    return bad + '\n' + text
+
+
+def gen_scale(ctx, rng):
+    """(kind, text): atoms x sizes x statement kinds x fault placement. The sizes at the host limits get the full cross of
+    statement kinds, the other sizes a sample of it."""
+    top = ctx.scale([5000, 20000], [5000, 20000, 65536, 100001])
+    crossed = ctx.scale([4301], [17, 310, 4301, 20000])
+    sizes = sorted(set(HOST_LIMITS + top + [int(10 ** rng.uniform(0.3, 4.5)) for _ in range(ctx.scale(3, 12))]))
+    for n in sizes:
+        for cls, atom in atoms(rng, n):
+            slots = EXPR_SLOTS if n in crossed else rng.sample(EXPR_SLOTS, ctx.scale(2, 4))
+            for slot, template in slots:
+                hows = ['valid', 'fault-after', 'fault-inline'] if n in crossed else [rng.choice(['valid', 'fault-after', 'fault-inline', 'fault-before'])]
+                for how in hows:
+                    if how == 'fault-inline':
+                        # the fault sits in the same expression, right after the big atom: column and caret far to the right
+                        text = template.replace('{e}', atom + rng.choice([' )', ' 1', " '", ' ]', ' ,']))
+                    else:
+                        text = with_fault(rng, template.replace('{e}', atom), how)
+                    yield 'scale:' + cls, text
+        for cls, text in structure_cases(rng, n):
+            yield 'scale:' + cls, with_fault(rng, text, rng.choice(['valid', 'valid', 'fault-after', 'fault-before']))
+
+
+NUM_PIECES = ['0', '1', '9', '007', '.', '.', 'e', 'e+', 'e-', 'E+', '+', '-', '1e+3', '1e-3', '2.5', '1.', '1e+400', '1e-400',
+              '1.7976931348623157e+308', '1.7976931348623159e+308', '5e-324', '2e-324', '9007199254740993', '9007199254740992',
+              '12345678901234567890', '0.1', '0.30000000000000004', 'x', '_', ' ', ' ', '(', ')', ',', '**', '0x1F', '1_000', 'inf', 'nan',
+              'Infinity', '\u0663', '\uff11']
+
+
+def gen_numbers(ctx, rng):
+    """(kind, text): number literals of every lexical form - glued pieces (so that the number pattern stops in the middle:
+    `1e5`, `1..2`, `1e+`, `.5`), in a random statement kind."""
+    for _ in range(ctx.scale(400, 6000)):
+        atom = ''.join(rng.choice(NUM_PIECES) for _ in range(rng.randint(1, 5)))
+        _, template = rng.choice(EXPR_SLOTS)
+        yield 'numbers', template.replace('{e}', atom)
+
+
+R_EXPONENT = re.compile(r'e[+-](\d+)')
+R_NON_ASCII_WORD = re.compile(r'[^\W\x00-\x7f]')
+
+
+def model_can(text):
+    """The model keeps literals as exact rationals: 10**exponent must stay writable (exponents up to 200000); everything
+    else (any number of mantissa digits) goes to the model too. The model's \\w and \\d are the ASCII ones (ExprScan): a text with
+    another letter or digit is judged by the oracles on the implementation only."""
+    if R_NON_ASCII_WORD.search(text):
+        return False
+    return all(len(m.group(1)) <= 7 and int(m.group(1)) <= 200000 for m in R_EXPONENT.finditer(text))
+
+
+def number_key(v):
+    """Canonical comparable form of one number literal of the implementation's model."""
+    if isinstance(v, float):
+        if v != v or v in (float('inf'), float('-inf')):
+            return repr(v)
+        fr = Fraction(v)
+        return [fr.numerator, fr.denominator]
+    if isinstance(v, int) and not isinstance(v, bool) and v.bit_length() <= 2000:
+        return [v, 1]
+    return type(v).__name__ + ' of ' + (str(v.bit_length()) + ' bits' if isinstance(v, int) else '?')
+
+
+def rounded_key(p, q):
+    """What float(text) gives for the exact rational p/q (both are correctly rounded; beyond the double range: inf)."""
+    try:
+        x = float(p) if q == 1 else p / q
+    except OverflowError:
+        x = float('inf') if (p > 0) == (q > 0) else float('-inf')
+    return number_key(x)
+
+
+def canon_impl(script):
+    """progen.canon_script with the literals keyed by number_key (non-finite and non-float literals included)."""
+    table = []
+
+    def strip(obj):
+        if isinstance(obj, dict):
+            if set(obj) == {'number'} and not isinstance(obj['number'], (dict, list)):
+                table.append(number_key(obj['number']))
+                return {'number': float(len(table) - 1)}
+            return {k: strip(v) for k, v in obj.items()}
+        if isinstance(obj, list):
+            return [strip(x) for x in obj]
+        return obj
+
+    def fill(obj):
+        if isinstance(obj, dict):
+            if set(obj) == {'number'}:
+                return {'number': table[obj['number'][0]]}
+            return {k: fill(v) for k, v in obj.items()}
+        if isinstance(obj, list):
+            return [fill(x) for x in obj]
+        return obj
+    return fill(progen.canon_script(strip(script), with_fid=False))
+
+
+def canon_model(obj):
+    if isinstance(obj, dict):
+        if set(obj) == {'number'} and isinstance(obj['number'], list):
+            return {'number': rounded_key(*obj['number'])}
+        return {k: canon_model(v) for k, v in obj.items()}
+    if isinstance(obj, list):
+        return [canon_model(x) for x in obj]
+    return obj
+
+
+def model_batch(ctx, reqs):
+    """The model answers with exact integers of any length; only while READING its answers the harness lifts CPython's
+    int<->str digit limit (the implementation always runs under the default limit)."""
+    limit = sys.get_int_max_str_digits()
+    sys.set_int_max_str_digits(0)
+    try:
+        return ctx.driver.batch(reqs)
+    finally:
+        sys.set_int_max_str_digits(limit)
+
+
 def load_corpus():
     path = os.path.join(fw.VERIF, 'harness', 'corpus', 'C06.jsonl')
     out = []
@@ -328,6 +554,9 @@ def gen_texts(ctx):
     for k in range(1, ctx.scale(4, 9)):
         yield 'backslash', 'a = 1 + ' + '\\' * k + '\n  2'
         yield 'backslash', 'a = 1 + ' + '\\' * k
+    # number literals of every lexical form; every token class at sizes around and far beyond the host's limits
+    yield from gen_numbers(ctx, ctx.rng('numbers'))
+    yield from gen_scale(ctx, ctx.rng('scale'))
 
 
 def streams(ctx):
@@ -335,13 +564,19 @@ def streams(ctx):
     rng = ctx.rng('meta')
     st = ctx.stream('texts', 'hand-picked corpus (every error source, every statement kind with an expression), token soup, single-token '
                              'mutations of generated programs, deleted closing keywords, dangling continuation, lone backslash as last line, '
-                             'long lines with the fault at every column, nesting to 50, backslash runs; non-trivial = a parser error or '
+                             'long lines with the fault at every column, nesting to 50, backslash runs, number literals glued from every lexical '
+                             'piece (sign, leading zeros, fraction, exponent with/without sign, overflow/underflow, 2**53+1, non-ASCII digits), '
+                             'scale families: every token class at sizes 15..20000 (thorough 100001) around the host limits (17 digits, 1e308, 1e-324, '
+                             '4300-digit int<->str limit, 120-column elision) in every statement kind, alone / with a fault after, before or '
+                             'right behind the big token; non-trivial = a parser error or '
                              'a model with >= 3 statements')
     cases = list(gen_texts(ctx))
     # correspondence with the Lean parser model (when the driver is built)
     resps = None
     if ctx.driver is not None:
-        resps = ctx.driver.batch([{'op': 'parse', 'chunks': [text], 'start': 1} for _, text in cases])
+        to_model = [ix for ix, (_, text) in enumerate(cases) if model_can(text)]
+        answers = model_batch(ctx, [{'op': 'parse', 'chunks': [cases[ix][1]], 'start': 1} for ix in to_model])
+        resps = dict(zip(to_model, answers))
     for ix, (kind, text) in enumerate(cases):
         what, res = parse_outcome(parser, text)
         tags = [kind, what + (':' + res['error'] if what == 'err' else '')]
@@ -371,11 +606,11 @@ def streams(ctx):
                 if depth != 0:
                     ctx.witness('open-block-rejected', {'text': text}, 'parser error (unbalanced blocks)', 'accepted')
         # correspondence
-        if resps is not None:
+        if resps is not None and ix in resps:
             model = resps[ix]
             if what == 'ok':
-                impl = {'ok': progen.canon_script(res, with_fid=False)}
-                model = {'ok': progen.round_script_numbers(model.get('ok'))} if 'ok' in model else model
+                impl = {'ok': canon_impl(res)}
+                model = {'ok': canon_model(model.get('ok'))} if 'ok' in model else model
             else:
                 impl = {'error': res['error'], 'line': res['line'], 'column': res['column'], 'lineNumber': res['lineNumber']}
             ctx.compare('parse', text, impl, model)
